@@ -22,6 +22,7 @@ type Resource struct {
 	Namespaced                   bool
 	Status                       bool // has the /status subresource
 	Generation                   bool // server maintains metadata.generation
+	Scale                        bool // discovery also lists a /scale subresource
 }
 
 func (r *Resource) APIVersion() string {
@@ -408,6 +409,19 @@ func validateMetaTypes(r *Resource, name string, o Object) *StatusErr {
 	if v, ok := m["ownerReferences"]; ok && v != nil {
 		if _, ok := v.([]interface{}); !ok {
 			return errBadRequest("metadata.ownerReferences must be a list")
+		}
+	}
+	// the API server bounds the total size of all annotations of an object (256 KiB)
+	if ann, ok := m["annotations"].(map[string]interface{}); ok {
+		total := 0
+		for k, v := range ann {
+			total += len(k)
+			if vs, ok := v.(string); ok {
+				total += len(vs)
+			}
+		}
+		if total > 256*1024 {
+			return errInvalid(r, name, fmt.Sprintf("metadata.annotations: Too long: must have at most 262144 bytes (has %d)", total))
 		}
 	}
 	return nil
